@@ -54,7 +54,7 @@ type Exec struct {
 	loops    map[*ssa.Function]*LoopInfo
 	shape    string
 	shapeObj *Shape
-	unfolding bool
+	predLv   [][]*Term // predicate applications assumed positively, per solver level
 	evalFrozen bool // model walk in progress: no check-sat between evaluations
 	refined   map[string]bool // predicate unfoldings added while refining a candidate model
 	noAssume bool // the goal being checked is not assumed afterwards (lockset obligations)
@@ -76,7 +76,7 @@ func (e *Exec) assumeRaw(t *Term) {
 	if t == TTrue {
 		return
 	}
-	e.unfoldAssumed(t)
+	e.notePredApps(t)
 	if hasQuant(t, map[*Term]bool{}) {
 		var made []*Term
 		t = skolemize(t, false, true, &made)
@@ -104,11 +104,13 @@ func (e *Exec) push() {
 	e.sol.Push()
 	e.onceLv = append(e.onceLv, map[*Term]bool{})
 	e.witLv = append(e.witLv, nil)
+	e.predLv = append(e.predLv, nil)
 }
 func (e *Exec) pop() {
 	e.sol.Pop()
 	e.onceLv = e.onceLv[:len(e.onceLv)-1]
 	e.witLv = e.witLv[:len(e.witLv)-1]
+	e.predLv = e.predLv[:len(e.predLv)-1]
 }
 
 var builtinOps = map[string]bool{"and": true, "or": true, "not": true, "=>": true, "ite": true, "=": true, "+": true, "-": true, "*": true, "div": true, "mod": true,
@@ -405,24 +407,44 @@ func (e *Exec) prove(st *State, o *Oblig, goal *Term, gsks []*Term) CheckResult 
 	}
 	s.timeout = full
 	if cr.Res == "unknown" || cr.Res == "error" {
-		cr = s.fallbacks(script, cr)
+		cr = s.fallbacksN(script, cr, 1)
 	}
-	if cr.Res != "unsat" && pushed {
+	if cr.Res != "unsat" && len(predDefs) > 0 {
+		// unfold the assumed predicate applications (three levels), Go-side
+		if !pushed {
+			e.push()
+			pushed = true
+		}
+		if e.unfoldRounds(at) > 0 {
+			cr4, script4 := s.primary(goal)
+			if cr4.Res == "unknown" || cr4.Res == "error" {
+				cr4 = s.fallbacksN(script4, cr4, 1)
+			}
+			if cr4.Res == "unsat" {
+				cr = cr4
+				cr.By += "+unfold"
+			} else {
+				script = script4
+			}
+		}
+	}
+	if cr.Res != "unsat" {
 		// last resort: a second round of instances, for the quantifiers nested in
-		// the instances of the first (kept apart: the extra facts slow the easy cases)
-		if more := s.instancesFrom(len(s.qlv)-1, at); len(more) > 0 {
-			for _, x := range more {
+		// the instances of the first (kept apart: the extra facts slow the easy
+		// cases), and the solvers once more with four times the limit
+		if pushed {
+			for _, x := range s.instancesFrom(len(s.qlv)-1, at) {
 				e.assumeRaw(x)
 			}
-			cr3, script3 := s.primary(goal)
-			if cr3.Res == "unknown" || cr3.Res == "error" {
-				cr3 = s.fallbacks(script3, cr3)
-			}
-			if cr3.Res == "unsat" {
-				cr = cr3
-			} else {
-				script = script3
-			}
+		}
+		cr3, script3 := s.primary(goal)
+		if cr3.Res == "unknown" || cr3.Res == "error" {
+			cr3 = s.fallbacks(script3, cr3)
+		}
+		if cr3.Res == "unsat" {
+			cr = cr3
+		} else {
+			script = script3
 		}
 	}
 	if cr.Res != "unsat" {
@@ -1395,17 +1417,15 @@ func classSelected(class string) bool {
 	return false
 }
 
-// unfoldAssumed: for every predicate application p(args) that occurs positively
-// in an assumed formula (ground arguments), the one-level unfolding
-// p(args) => body[args] is assumed as well. It is an instance of the
-// predicate's defining axiom; stated here, the quantifiers of the body (e.g.
-// "every child is in wire form") become hypotheses of the path that the
-// Go-side instantiation can reach.
-func (e *Exec) unfoldAssumed(t *Term) {
-	if len(predDefs) == 0 || e.unfolding || os.Getenv("GOVC_UNFOLD") == "" {
-		return // experimental: off by default (it made other proofs of the decode path slower)
-	}
-	var apps []*Term
+// Predicate applications that occur positively in assumed formulas are
+// remembered per solver level (notePredApps); when every other attempt to
+// discharge a goal has failed, they are unfolded one level (p(args) =>
+// body[args], an instance of the defining axiom), the index quantifiers of the
+// bodies are instantiated Go-side, and the applications that this produces are
+// unfolded in turn (three rounds). This makes chains such as
+// wire(q) -> wire(kid(q,1)) -> wire(kid(kid(q,1),j)) independent of the
+// solver's own pattern matching.
+func posPredApps(t *Term, out *[]*Term) {
 	var walk func(t *Term, pos bool)
 	walk = func(t *Term, pos bool) {
 		if t.S != SBool {
@@ -1424,28 +1444,56 @@ func (e *Exec) unfoldAssumed(t *Term) {
 		default:
 			if pos {
 				if _, ok := predDefs[t.Op]; ok && !hasBound(t) {
-					apps = append(apps, t)
+					*out = append(*out, t)
 				}
 			}
 		}
 	}
 	walk(t, true)
-	e.unfolding = true
-	defer func() { e.unfolding = false }()
-	for _, app := range apps {
-		app := app
-		d := predDefs[app.Op]
-		if len(d.qs) != len(app.Args) {
-			continue
-		}
-		e.assumeOnce(app, func() *Term {
+}
+
+func (e *Exec) notePredApps(t *Term) {
+	if len(predDefs) == 0 {
+		return
+	}
+	var apps []*Term
+	posPredApps(t, &apps)
+	if len(apps) > 0 {
+		e.predLv[len(e.predLv)-1] = append(e.predLv[len(e.predLv)-1], apps...)
+	}
+}
+
+// unfoldRounds: see above. Must be called inside a pushed scope.
+func (e *Exec) unfoldRounds(at []*Term) int {
+	done := map[*Term]bool{}
+	var work []*Term
+	for _, lv := range e.predLv {
+		work = append(work, lv...)
+	}
+	n := 0
+	for round := 0; round < 3 && len(work) > 0 && n < 60; round++ {
+		var next []*Term
+		for _, app := range work {
+			if done[app] || n >= 60 {
+				continue
+			}
+			done[app] = true
+			d := predDefs[app.Op]
+			if d == nil || len(d.qs) != len(app.Args) {
+				continue
+			}
 			m := map[*Term]*Term{}
 			for i, q := range d.qs {
 				m[q] = app.Args[i]
 			}
-			return Implies(app, Subst(d.body, m))
-		})
+			body := instHyp(Subst(d.body, m), at)
+			e.assumeRaw(Implies(app, body))
+			n++
+			posPredApps(body, &next)
+		}
+		work = next
 	}
+	return n
 }
 
 // lockRelated: a pre-condition that speaks about lock ownership (held / heldw /
